@@ -34,13 +34,13 @@ pub trait SystemSet: 'static {}
 pub trait FromWorld { fn from_world(world: &mut World) -> Self; }
 impl<T: Default> FromWorld for T { fn from_world(_: &mut World) -> Self { T::default() } }
 
-struct Slot {
-    generation: u32,
-    alive: bool,
-    comps: Vec<(TypeId, Box<dyn Any>)>,
-    parent: Option<Entity>,
-    children: Vec<Entity>,
-}
+/// Entity table entry: small and `Copy`. Components live in ONE flat table of the world (`World::comps`), not inside
+/// the entity entry: containers nested inside containers are what makes CBMC blow up (DESIGN 2, measured).
+#[derive(Copy, Clone)]
+struct Slot { generation: u32, alive: bool, parent: Option<Entity> }
+impl Slot { fn new() -> Slot { Slot { generation: 1, alive: true, parent: None } } }
+pub const ENT_PREALLOC: usize = if cfg!(kani) { 8 } else { 64 };
+pub const COMP_PREALLOC: usize = if cfg!(kani) { 8 } else { 64 };
 
 /// Entity allocator. `reserve` works through `&self` (as Bevy's atomic reservation does).
 pub struct Entities { slots: UnsafeCell<Vec<Slot>> }
@@ -51,7 +51,7 @@ impl Entities {
     fn slots_mut(&self) -> &mut Vec<Slot> { unsafe { &mut *self.slots.get() } }
     pub fn reserve_entity(&self) -> Entity {
         let slots = self.slots_mut();
-        slots.push(Slot { generation: 1, alive: true, comps: Vec::new(), parent: None, children: Vec::new() });
+        slots.push(Slot::new());
         Entity { index: (slots.len() - 1) as u32, generation: 1 }
     }
     pub fn contains(&self, e: Entity) -> bool {
@@ -70,14 +70,27 @@ impl<A: Bundle, B: Bundle, C: Bundle> Bundle for (A, B, C) { fn insert_into(self
 // Command queue (mirrors bevy_ecs::world::command_queue: cursor-based, per-command flush)
 //---------------------------------------------------------------------------------------------------------------
 
-type BoxedCommand = Box<dyn FnOnce(&mut World)>;
+/// A queued command keeps its concrete type (so harnesses can look at what was queued); applying is unchanged.
+pub trait AnyCommand { fn apply_boxed(self: Box<Self>, world: &mut World); fn as_any(&self) -> &dyn Any; fn cmd_type(&self) -> TypeId; }
+impl<C: Command> AnyCommand for C {
+    fn apply_boxed(self: Box<Self>, world: &mut World) { (*self).apply(world) }
+    fn as_any(&self) -> &dyn Any { self }
+    fn cmd_type(&self) -> TypeId { TypeId::of::<C>() }
+}
+type BoxedCommand = Box<dyn AnyCommand>;
 
 #[derive(Default)]
 pub struct CommandQueue { cmds: Vec<Option<BoxedCommand>>, cursor: usize }
 
 impl CommandQueue {
-    pub fn push<C: Command>(&mut self, c: C) { self.cmds.push(Some(Box::new(move |w: &mut World| c.apply(w)))); }
+    pub fn push<C: Command>(&mut self, c: C) { self.cmds.push(Some(Box::new(c))); }
     pub fn is_empty(&self) -> bool { self.cursor >= self.cmds.len() }
+    /// Number of commands queued and not yet applied (verification aid).
+    #[doc(hidden)] pub fn verif_pending(&self) -> usize { self.cmds.len() - self.cursor }
+    /// The i-th pending command, if it is a `C` (verification aid).
+    #[doc(hidden)] pub fn verif_peek<C: Command>(&self, i: usize) -> Option<&C> {
+        self.cmds.get(self.cursor + i).and_then(|c| c.as_ref()).and_then(|c| c.as_any().downcast_ref::<C>())
+    }
     /// `CommandQueue::apply`: flush the world's own queue, then apply this (system-local) queue.
     pub fn apply(&mut self, world: &mut World) {
         world.flush_commands();
@@ -95,7 +108,9 @@ unsafe fn apply_or_drop_queued(q: *mut CommandQueue, world: &mut World) {
         let cmd = (&mut (*q).cmds)[local].take();
         local += 1;
         if let Some(cmd) = cmd {
-            cmd(world);
+            // verification aid: commands of the captured type are recorded instead of applied (off by default)
+            if world.verif_capture == Some(cmd.cmd_type()) { world.verif_captured.push(cmd); continue; }
+            cmd.apply_boxed(world);
             world.flush();
         }
     }
@@ -114,8 +129,13 @@ pub struct World {
     resources: Vec<(TypeId, Box<dyn Any>)>,
     entities: Entities,
     command_queue: Box<CommandQueue>,
+    /// Flat component table: (entity index, component type, value); `None` = free entry.
+    comps: Vec<Option<(u32, TypeId, Box<dyn Any>)>>,
     /// (component type, entity) removal log, read by `RemovedComponents` with per-reader cursors.
     removed: Vec<(TypeId, Entity)>,
+    /// verification aid (see `verif_capture_commands`): None in normal operation.
+    verif_capture: Option<TypeId>,
+    verif_captured: Vec<BoxedCommand>,
 }
 
 impl Default for World { fn default() -> Self { World::new() } }
@@ -129,7 +149,7 @@ impl<'a, T: ?Sized> DerefMut for Mut<'a, T> { fn deref_mut(&mut self) -> &mut T 
 
 impl World {
     pub fn new() -> World {
-        World { resources: Vec::new(), entities: Entities { slots: UnsafeCell::new(Vec::new()) }, command_queue: Box::new(CommandQueue::default()), removed: Vec::new() }
+        World { resources: Vec::new(), entities: Entities { slots: UnsafeCell::new(Vec::with_capacity(ENT_PREALLOC)) }, command_queue: Box::new(CommandQueue::default()), comps: Vec::with_capacity(COMP_PREALLOC), removed: Vec::new(), verif_capture: None, verif_captured: Vec::new() }
     }
 
     // resources
@@ -191,51 +211,66 @@ impl World {
     pub fn entity_mut(&mut self, e: Entity) -> EntityWorldMut<'_> { self.get_entity_mut(e).expect("entity missing") }
     fn slot(&self, e: Entity) -> Option<&Slot> { if self.entities.contains(e) { Some(&self.entities.slots()[e.index as usize]) } else { None } }
     fn slot_mut(&mut self, e: Entity) -> Option<&mut Slot> { if self.entities.contains(e) { Some(&mut self.entities.slots_mut()[e.index as usize]) } else { None } }
+    fn comp_pos(&self, e: Entity, id: TypeId) -> Option<usize> {
+        let mut i = 0;
+        while i < self.comps.len() { if let Some((idx, t, _)) = &self.comps[i] { if *idx == e.index && *t == id { return Some(i); } } i += 1; }
+        None
+    }
     pub(crate) fn insert_component<C: Component>(&mut self, e: Entity, c: C) {
-        let Some(slot) = self.slot_mut(e) else { return };
-        match slot.comps.iter().position(|(t, _)| *t == TypeId::of::<C>()) {
-            Some(p) => slot.comps[p].1 = Box::new(c),
-            None => slot.comps.push((TypeId::of::<C>(), Box::new(c))),
-        }
+        if !self.entities.contains(e) { return; }
+        let entry = Some((e.index, TypeId::of::<C>(), Box::new(c) as Box<dyn Any>));
+        if let Some(p) = self.comp_pos(e, TypeId::of::<C>()) { self.comps[p] = entry; return; }
+        let mut i = 0;
+        while i < self.comps.len() { if self.comps[i].is_none() { self.comps[i] = entry; return; } i += 1; }
+        self.comps.push(entry);
     }
     pub(crate) fn remove_component<C: Component>(&mut self, e: Entity) -> Option<C> {
-        let slot = self.slot_mut(e)?;
-        let p = slot.comps.iter().position(|(t, _)| *t == TypeId::of::<C>())?;
-        let (_, b) = slot.comps.remove(p);
+        if !self.entities.contains(e) { return None; }
+        let p = self.comp_pos(e, TypeId::of::<C>())?;
+        let (_, _, b) = self.comps[p].take().unwrap();
         self.removed.push((TypeId::of::<C>(), e));
         Some(*b.downcast::<C>().ok().unwrap())
     }
     pub fn get<C: Component>(&self, e: Entity) -> Option<&C> {
-        let slot = self.slot(e)?;
-        let p = slot.comps.iter().position(|(t, _)| *t == TypeId::of::<C>())?;
-        slot.comps[p].1.downcast_ref::<C>()
+        if !self.entities.contains(e) { return None; }
+        let p = self.comp_pos(e, TypeId::of::<C>())?;
+        self.comps[p].as_ref().unwrap().2.downcast_ref::<C>()
     }
     pub fn get_mut<C: Component>(&mut self, e: Entity) -> Option<Mut<'_, C>> {
-        let slot = self.slot_mut(e)?;
-        let p = slot.comps.iter().position(|(t, _)| *t == TypeId::of::<C>())?;
-        slot.comps[p].1.downcast_mut::<C>().map(|value| Mut { value })
+        if !self.entities.contains(e) { return None; }
+        let p = self.comp_pos(e, TypeId::of::<C>())?;
+        self.comps[p].as_mut().unwrap().2.downcast_mut::<C>().map(|value| Mut { value })
     }
     pub fn despawn(&mut self, e: Entity) -> bool {
-        let Some(slot) = self.slot_mut(e) else { return false };
-        slot.alive = false;
-        let comps = core::mem::take(&mut slot.comps);
-        let parent = slot.parent.take();
-        let children = core::mem::take(&mut slot.children);
-        for (t, _) in comps.iter() { self.removed.push((*t, e)); }
-        if let Some(p) = parent { if let Some(ps) = self.slot_mut(p) { ps.children.retain(|c| *c != e); } }
-        for c in children { if let Some(cs) = self.slot_mut(c) { cs.parent = None; } }
-        drop(comps); // component Drop impls run here (DespawnTracker, payloads, captured state)
+        if !self.entities.contains(e) { return false; }
+        { let slot = &mut self.entities.slots_mut()[e.index as usize]; slot.alive = false; slot.parent = None; }
+        // children become orphans (non-recursive despawn)
+        let n = self.entities.slots().len();
+        let mut k = 0;
+        while k < n { let sl = &mut self.entities.slots_mut()[k]; if sl.parent == Some(e) { sl.parent = None; } k += 1; }
+        // components are removed and dropped one by one (Drop impls run here: DespawnTracker, payloads, captured state)
+        let mut i = 0;
+        while i < self.comps.len() {
+            let hit = match &self.comps[i] { Some((idx, _, _)) => *idx == e.index, None => false };
+            if hit { let (_, t, b) = self.comps[i].take().unwrap(); self.removed.push((t, e)); drop(b); }
+            i += 1;
+        }
         true
     }
     pub(crate) fn despawn_recursive(&mut self, e: Entity) {
-        let children = match self.slot(e) { Some(s) => s.children.clone(), None => return };
-        for c in children { self.despawn_recursive(c); }
+        if !self.entities.contains(e) { return; }
+        let n = self.entities.slots().len();
+        let mut k = 0;
+        while k < n {
+            let sl = self.entities.slots()[k];
+            if sl.alive && sl.parent == Some(e) { self.despawn_recursive(Entity { index: k as u32, generation: sl.generation }); }
+            k += 1;
+        }
         self.despawn(e);
     }
     pub fn set_parent(&mut self, child: Entity, parent: Entity) {
         if !self.entities.contains(child) || !self.entities.contains(parent) { return; }
-        self.slot_mut(child).unwrap().parent = Some(parent);
-        self.slot_mut(parent).unwrap().children.push(child);
+        self.entities.slots_mut()[child.index as usize].parent = Some(parent);
     }
     pub fn entity_count(&self) -> usize { self.entities.slots().iter().filter(|s| s.alive).count() }
 
@@ -254,6 +289,14 @@ impl World {
         ecs::world::unsafe_world_cell::UnsafeWorldCell { world: self as *mut World, _p: PhantomData }
     }
     pub fn clear_trackers(&mut self) { self.removed.clear(); }
+
+    // ---- verification aids (never used by bevy_cobweb itself) ----
+    /// From now on, commands of type `C` reaching the apply loop are recorded instead of applied.
+    #[doc(hidden)] pub fn verif_capture_commands<C: Command>(&mut self) { self.verif_capture = Some(TypeId::of::<C>()); }
+    #[doc(hidden)] pub fn verif_captured_len(&self) -> usize { self.verif_captured.len() }
+    #[doc(hidden)] pub fn verif_captured<C: Command>(&self, i: usize) -> Option<&C> { self.verif_captured.get(i).and_then(|c| c.as_any().downcast_ref::<C>()) }
+    #[doc(hidden)] pub fn verif_world_queue(&self) -> &CommandQueue { &self.command_queue }
+    #[doc(hidden)] pub fn verif_is_alive(&self, e: Entity) -> bool { self.entities.contains(e) }
 }
 
 pub struct EntityRef<'w> { world: &'w World, entity: Entity }
@@ -286,6 +329,7 @@ unsafe impl Send for Commands<'_, '_> {}
 unsafe impl Sync for Commands<'_, '_> {}
 
 impl<'w, 's> Commands<'w, 's> {
+    #[doc(hidden)] pub fn verif_new(queue: &'s mut CommandQueue, world: &'w World) -> Self { Commands { queue: queue as *mut CommandQueue, entities: &world.entities as *const Entities, _p: PhantomData } }
     pub fn reborrow(&mut self) -> Commands<'w, '_> { Commands { queue: self.queue, entities: self.entities, _p: PhantomData } }
     pub fn queue<C: Command>(&mut self, c: C) { unsafe { (*self.queue).push(c); } }
     pub fn spawn_empty(&mut self) -> EntityCommands<'_> {
@@ -527,7 +571,7 @@ impl<Marker: 'static, F: ExclusiveSystemParamFunction<Marker>> IntoSystem<F::In,
 
 pub struct Res<'w, T: Resource> { value: &'w T }
 impl<'w, T: Resource> Deref for Res<'w, T> { type Target = T; fn deref(&self) -> &T { self.value } }
-impl<'w, T: Resource> Res<'w, T> { pub fn into_inner(self) -> &'w T { self.value } }
+impl<'w, T: Resource> Res<'w, T> { pub fn into_inner(self) -> &'w T { self.value } #[doc(hidden)] pub fn verif_new(value: &'w T) -> Self { Res { value } } }
 unsafe impl<T: Resource> SystemParam for Res<'_, T> {
     type State = ();
     type Item<'w, 's> = Res<'w, T>;
@@ -547,7 +591,7 @@ unsafe impl<T: Resource> SystemParam for Option<Res<'_, T>> {
 pub struct ResMut<'w, T: Resource> { value: &'w mut T }
 impl<'w, T: Resource> Deref for ResMut<'w, T> { type Target = T; fn deref(&self) -> &T { self.value } }
 impl<'w, T: Resource> DerefMut for ResMut<'w, T> { fn deref_mut(&mut self) -> &mut T { self.value } }
-impl<'w, T: Resource> ResMut<'w, T> { pub fn into_inner(self) -> &'w mut T { self.value } }
+impl<'w, T: Resource> ResMut<'w, T> { pub fn into_inner(self) -> &'w mut T { self.value } #[doc(hidden)] pub fn verif_new(value: &'w mut T) -> Self { ResMut { value } } }
 unsafe impl<T: Resource> SystemParam for ResMut<'_, T> {
     type State = ();
     type Item<'w, 's> = ResMut<'w, T>;
@@ -574,6 +618,7 @@ impl<T: Resource> DetectChanges for Res<'_, T> { fn is_added(&self) -> bool { fa
 impl<T: Resource> DetectChanges for ResMut<'_, T> { fn is_added(&self) -> bool { false } fn is_changed(&self) -> bool { false } fn last_changed(&self) -> ecs::component::Tick { ecs::component::Tick(0) } }
 
 pub struct Local<'s, T: FromWorld + Send + 'static>(&'s mut T);
+impl<'s, T: FromWorld + Send + 'static> Local<'s, T> { #[doc(hidden)] pub fn verif_new(v: &'s mut T) -> Self { Local(v) } }
 impl<'s, T: FromWorld + Send + 'static> Deref for Local<'s, T> { type Target = T; fn deref(&self) -> &T { self.0 } }
 impl<'s, T: FromWorld + Send + 'static> DerefMut for Local<'s, T> { fn deref_mut(&mut self) -> &mut T { self.0 } }
 pub struct SyncCell<T>(T);
@@ -623,6 +668,7 @@ pub struct Query<'w, 's, D: QueryData, F = ()> { world: *mut World, _p: PhantomD
 unsafe impl<D: QueryData, F> Send for Query<'_, '_, D, F> {}
 unsafe impl<D: QueryData, F> Sync for Query<'_, '_, D, F> {}
 impl<'w, 's, D: QueryData, F> Query<'w, 's, D, F> {
+    #[doc(hidden)] pub fn verif_new(world: &'w mut World) -> Self { Query { world: world as *mut World, _p: PhantomData } }
     pub fn get(&self, e: Entity) -> Result<<D::ReadOnly as QueryData>::Item<'_>, ecs::query::QueryEntityError<'static>> {
         unsafe { <D::ReadOnly as QueryData>::fetch(self.world, e) }.ok_or(ecs::query::QueryEntityError::NoSuchEntity(e, PhantomData))
     }
@@ -754,7 +800,7 @@ pub mod ecs {
         pub use bevy_shim_macros::SystemParam;
     }
     pub mod world {
-        pub use crate::Command;
+        pub use crate::{Command, CommandQueue};
         pub mod unsafe_world_cell {
             use core::marker::PhantomData;
             #[derive(Copy, Clone)]
